@@ -36,7 +36,7 @@ class EngineC14(HistEngine):
                              ("new", w_new if len(insts) < 3 else 0),
                              ("add_sub", 1), ("parse_err", fail_w // 2), ("load", 1), ("loaded_insn", 2), ("twins", 1),
                              ("add_macro", 1), ("shortcode", 1 if ch.chance(1, 6, "sc?") else 0),
-                             ("deep", 1 if fail_w and ch.chance(1, 3, "deep?") else 0)], "opkind")
+                             ("deep", 1 if fail_w and ch.chance(1, 3, "deep?") else 0), ("again", 2 if ops else 0)], "opkind")
             if k == "new":
                 fmt = ch.choice(FMTS, "newfmt")
                 ops.append({"op": "new_compiler", "fmt": fmt})
@@ -81,6 +81,14 @@ class EngineC14(HistEngine):
                     ops.append({"op": "compile_parsed", "inst": inst, "name": nm, "parts": self.beh[n1]})
                     ops.append({"op": "shortcode", "inst": i2, "behaviors": {nm: self.beh[n2]}})
                     ops.append({"op": "compile_parsed", "inst": i2, "name": nm, "parts": self.beh[n2]})
+                continue
+            if k == "again":
+                # the very same input (the same parse tree object) once more, on any instance
+                prev = [o for o in ops if o["op"] in ("insn", "fresh") and not o.get("fault")]
+                if prev:
+                    o = dict(ch.choice(prev[-4:], "again-what"))
+                    o["inst"] = ch.draw(len(insts), "again-inst")
+                    ops.append(o)
                 continue
             if k == "deep":
                 # legal but very deeply nested statements, on both sides of what the interpreter's recursion limit allows:
